@@ -25,11 +25,24 @@
    C17_html_select_ranges is the full statement for select_item_html: an equation between the model and the
    spec, for every string, position, direction and option set.  The attribute tokens inside the spec are those of
    get_attributes; C17_html_get_open_tag says they slice the source to names and values as written
-   (attrs_sorted).  On text of the C09 level-B grammar props/C17HtmlText.v computes everything from the
-   written attributes. *)
+   (attrs_sorted).
+
+   ON TEXT (C17_html_select_text, C17_html_get_open_tag_text; proofs/HtmlSelectText.v): for every document d of the
+   C09 level-B grammar (proofs/HtmlRender.v, HtmlRenderScan.v: item, dattr, aname, aval, render, item_ok) the helpers
+   run on the string `render d` return the tags of the document's own record:
+     tags_of d                          the open / self-closing tags of d with their offsets, in document order
+     select_tag pos is_prev tags        next: first tag that ends after pos; previous: last tag that starts before pos
+     tag_items t                        (range, text) pairs computed from the attributes AS WRITTEN: tag name; per
+                                        attribute [name start, value end) -> `name=value`, the unquoted value -> the body
+                                        between the quotes / braces, for class the words of the body
+     written_model t                    start, end, tag name :: squash (ranges of the attribute items)
+     sliced src (r, txt)                src[r] = txt
+     ctx_of_tag t / tag_tokens t        the ContextTag with the attribute tokens of the record (attr_tokens: names and
+                                        values as written at their exact document offsets -- shifted exactly once) *)
 From Coq Require Import List NArith ZArith.
 From Emmet Require Import lib.Base gen.GenHtml model.HtmlScan model.HtmlMatch model.HtmlActions
-  proofs.HtmlScanProofs proofs.HtmlFoldProofs proofs.HtmlC16Proofs proofs.HtmlActionsProofs proofs.HtmlSelectFull.
+  proofs.HtmlScanProofs proofs.HtmlFoldProofs proofs.HtmlC16Proofs proofs.HtmlActionsProofs proofs.HtmlSelectFull
+  proofs.HtmlRender proofs.HtmlRenderScan proofs.HtmlRenderCompose proofs.HtmlSelectText.
 Import ListNotations.
 Local Open Scope Z_scope.
 
@@ -169,3 +182,56 @@ Example C17_html_spec_nonvacuous :
   select_target 0 false (fst (scan (o_special default_opts) s)) = Some e /\
   sel_ranges (tag_sel s e) = [(1, 2); (3, 12); (10, 11); (13, 17); (18, 19)].
 Proof. vm_compute. split; reflexivity. Qed.
+
+(* ================================================================== on TEXT *)
+(* select_item_html on the text of any document of the grammar, any position, both directions: the next / previous
+   tag of the record with the ranges computed from the WRITTEN attributes; every item of every tag slices the
+   text to exactly its part, and all ranges lie inside the tag *)
+Theorem C17_html_select_text :
+  forall (o : opts) (d : list item) (pos : Z) (is_prev : bool),
+    forallb (item_ok (o_special o)) d = true ->
+    select_item_html o (render d) pos is_prev = Ok (option_map written_model (select_tag pos is_prev (tags_of d))) /\
+    forall t, In t (tags_of d) ->
+      Forall (sliced (render d)) (tag_items t) /\
+      Forall (tok_in (Z.of_N (tr_start t) + 1) (Z.of_N (tr_end t))) (written_ranges t).
+Proof. exact select_text. Qed.
+Print Assumptions C17_html_select_text.
+
+(* get_open_tag on the text: exactly the open / self-closing tag of the record strictly containing the position,
+   with the attribute tokens of the record, which slice the text to the names and values as written *)
+Theorem C17_html_get_open_tag_text :
+  forall (d : list item) (pos : Z),
+    forallb (item_ok (o_special default_opts)) d = true ->
+    (forall t, In t (tags_of d) -> Z.of_N (tr_start t) < pos -> pos < Z.of_N (tr_end t) ->
+       get_open_tag (render d) pos = Ok (Some (ctx_of_tag t))) /\
+    (forall c, get_open_tag (render d) pos = Ok (Some c) -> ct_type c <> EClose ->
+       exists t, In t (tags_of d) /\ Z.of_N (tr_start t) < pos /\ pos < Z.of_N (tr_end t) /\ c = ctx_of_tag t) /\
+    (forall t, In t (tags_of d) ->
+       Forall (token_slices (render d)) (tag_tokens t) /\
+       attrs_sorted (render d) (tr_start t) (tr_end t) (tag_tokens t)).
+Proof. exact get_open_tag_text. Qed.
+Print Assumptions C17_html_get_open_tag_text.
+
+(* the written items are the ranges of the model before squash (definitional) *)
+Theorem C17_html_written_ranges :
+  forall t, written_ranges t =
+    name_range (tr_start t) (tr_name t) ::
+    squash (Some (name_range (tr_start t) (tr_name t))) (map fst (tl (tag_items t))).
+Proof. reflexivity. Qed.
+Print Assumptions C17_html_written_ranges.
+
+(* non-vacuity on text: d = <p class="a b" id=x k={v}>t</p><br/> is a document of the grammar; at position 30
+   (inside `</p>`) next selects <br/>, previous selects <p ...> with name, class
+   attribute, its unquoted value, both class tokens, id attribute, its value, k attribute and the inside of {v} *)
+Example C17_html_text_nonvacuous :
+  let cls := [99;108;97;115;115]%N in
+  let d := [IPaired [112]%N
+              [mkDAttr [32]%N (NIdent cls) (VQuoted 34%N [97;32;98]%N);
+               mkDAttr [32]%N (NIdent [105;100]%N) (VUnquoted [120]%N);
+               mkDAttr [32]%N (NIdent [107]%N) (VExpr [EChar 118%N])] [] [IText [116]%N];
+            ISelf [98;114]%N [] []] in
+  forallb (item_ok (o_special default_opts)) d = true /\
+  option_map written_model (select_tag 30 false (tags_of d)) = Some (mkSel 31 36 [(32, 34)]) /\
+  option_map written_model (select_tag 30 true (tags_of d)) =
+    Some (mkSel 0 26 [(1, 2); (3, 14); (10, 13); (10, 11); (12, 13); (15, 19); (18, 19); (20, 25); (23, 24)]).
+Proof. vm_compute. repeat split; reflexivity. Qed.
